@@ -136,9 +136,73 @@ def mutual_program(rng, pid):
     return {"id": pid, "vars": vars_, "kinds": ["int"] * 4, "nv": 4, "funcs": funcs, "init": [], "recursive": True}
 
 
+def spike_program(rng, pid):
+    """directed family: a callee with a SPIKE - f1(x) -> y = (x == k ? big : x + d) - called three or four times with
+    constants such that a later argument lies inside the hull of earlier ones (and may hit the spike), an assertion on the
+    result right after each call IN THE SAME BLOCK or in the next one.  With a bound on the calling contexts the analyzer joins
+    contexts: the join of (pre, post) pairs is not a summary of the callee for the arguments in between."""
+    vars_ = [{"n": NAMES[i], "t": "int"} for i in range(4)]
+    X, Y, Z, W = 1, 2, 3, 4
+    le = lambda k, t=(): {"k": k, "t": [list(u) for u in t]}
+    k = rng.randint(-1, 1)
+    big = rng.choice([4, 5, -4])
+    d = rng.choice([0, 0, 1])
+    if rng.random() < 0.5:      # spike through a select
+        f_blocks = [{"succ": [2], "stmts": []},
+                    {"succ": [], "stmts": [{"op": "select", "x": Y, "c": {"e": le(-k, [(1, X)]), "r": "eq"}, "e1": le(big), "e2": le(d, [(1, X)])}]}]
+        ex = 2
+    else:                       # spike through a branch
+        g = {"e": le(-k, [(1, X)]), "r": "eq"}
+        f_blocks = [{"succ": [2, 3], "stmts": []},
+                    {"succ": [4], "stmts": [{"op": "assume", "c": g}, {"op": "assign", "x": Y, "e": le(big)}]},
+                    {"succ": [4], "stmts": [{"op": "assume", "c": negate(g)}, {"op": "assign", "x": Y, "e": le(d, [(1, X)])}]},
+                    {"succ": [], "stmts": []}]
+        ex = 4
+    lo, hi = k - rng.choice([1, 2]), k + rng.choice([1, 2])
+    args = [lo, hi] if rng.random() < 0.5 else [hi, lo]
+    args.append(k if rng.random() < 0.7 else rng.randint(lo, hi))
+    if rng.random() < 0.4:
+        args.append(rng.randint(lo, hi))
+    if rng.random() < 0.25:
+        rng.shuffle(args)
+    blocks = []
+    na = 0
+    for i, a in enumerate(args):
+        st = [{"op": "assign", "x": Z, "e": le(a)}, {"op": "call", "fn": "f1", "lhs": [W], "args": [Z]}]
+        bound = max(abs(lo), abs(hi)) + d
+        if rng.random() < 0.8:
+            na += 1
+            asrt = {"op": "assert", "c": {"e": le(-bound, [(1, W)]) if big > 0 else le(-bound, [(-1, W)]), "r": "le"}, "id": na}
+            if rng.random() < 0.6:
+                st.append(asrt)                 # same block, right after the call
+                blocks.append({"succ": [], "stmts": st})
+            else:
+                blocks.append({"succ": [], "stmts": st})
+                blocks.append({"succ": [], "stmts": [asrt]})
+        else:
+            blocks.append({"succ": [], "stmts": st})
+    for i in range(len(blocks) - 1):
+        blocks[i]["succ"] = [i + 2]
+    funcs = [{"name": "main", "in": [], "out": [], "entry": 1, "exit": len(blocks), "blocks": blocks},
+             {"name": "f1", "in": [X], "out": [Y], "entry": 1, "exit": ex, "blocks": f_blocks}]
+    return {"id": pid, "vars": vars_, "kinds": ["int"] * 4, "nv": 4, "funcs": funcs, "init": [], "recursive": False, "family": "spike"}
+
+
+def bound_contexts(rng, p):
+    """spike programs are analysed with a bound on the calling contexts (the situation they are made for)"""
+    if p.get("family") == "spike":
+        for r in p["runs"]:
+            if r.get("kind") == "td":
+                r["max_cc"] = rng.choice([1, 1, 2])
+                r["rec"] = 0
+
+
 def program(rng, pid):
-    if rng.random() < 0.12:
+    r0 = rng.random()
+    if r0 < 0.12:
         return countdown_program(rng, pid) if rng.random() < 0.5 else mutual_program(rng, pid)
+    if r0 < 0.2:
+        return spike_program(rng, pid)
     ints = [1, 2, 3, 4]
     vars_ = [{"n": NAMES[i - 1], "t": "int"} for i in ints]
     nf = rng.choice([1, 2, 2, 3])
